@@ -473,8 +473,9 @@ theorem charge_rules_have_no_metal_atoms :
 
 /-- Full statement (not proved): `standardize_charges` conserves the net charge of every molecule with unique atom numbers.
     Missing: (a) the generator is lazy — a mapping may have been assembled from candidate tests made *before* an earlier loop
-    body rewrote a charge, so "the mapping matches the live molecule" is not an invariant of the loop; (b) the Morgan pairs
-    (charge removed in the loop, put back after the ranking) and (c) the ferrocene branch. Validated on the real code by the
+    body rewrote a charge, so "the mapping matches the live molecule" is not an invariant of the loop; (b) for the Morgan pairs
+    the same, plus other bodies running between a pair's removal and its deferred `+1`; (c) the ferrocene branch. (Proved parts:
+    `fixed_rule_step_conserves_charge_partial`, `morgan_pair_conserves_charge_partial`.) Validated on the real code by the
     relational oracle `net-charge` of `canonicalize`, and by the `CHG` correspondence on every run. -/
 def StandardizeChargesConservesCharge : Prop :=
   ∀ (m : Mol) (L : Labels) (comps sssr : List (List Nat)) (orders : List (List (Nat × Nat))) (o : Mol) (ch : List Nat),
@@ -534,6 +535,76 @@ example : ∃ st', chargeBody false false
                  (3, [(1, { order := 4 }), (2, { order := 4 })])]⟩ }
       [(1, 1), (2, 2), (3, 3)] = some st' ∧ netCharge st'.mol = 1 ∧ (st'.mol.atom? 2).map (·.charge) = some 1 :=
   ⟨_, rfl, by decide, by decide⟩
+
+/-- **Proved part — one `morgan_rules` application together with its own deferred `+1` conserves the net charge whenever the
+    mapping matches the live molecule.** The loop body takes the charge off the source atom (`mapping[3]` if `fix` else
+    `mapping[1]`) and queues `(mapping[1], mapping[2], fix)`; after the ranking `applyPairs` puts `+1` on `mapping[2]` or on
+    `mapping[1]`. For every rule of the regenerated `morgan_rules`: if the mapping is injective and its atoms compare equal to
+    their query atoms now, the molecule after the pair was applied has the net charge of the molecule before the body ran —
+    whichever way the ranking decides. -/
+theorem morgan_pair_conserves_charge_partial (r : ChargeRule) (hr : r ∈ morganRules) (L : Labels) (st st' : CState) (mp : Iso.Dict)
+    (order : List (Nat × Nat)) (a1 a2 : Nat) (m2 : Mol) (ch ch2 : List Nat)
+    (hnd : st.mol.ids.Nodup) (h : chargeBody true r.fix st mp = some st')
+    (hpair : st'.pairs = st.pairs ++ [(a1, a2, r.fix)])
+    (happ : applyPairs order [(a1, a2, r.fix)] st'.mol ch = some (m2, ch2))
+    (live : ∀ u x, mp.lookup u = some x → atomOk r.toPattern st.mol L u x = true) :
+    netCharge m2 = netCharge st.mol := by
+  rcases chargeBody_morgan_cases r.fix st mp st' h with ⟨_, hp⟩ | ⟨s, b1, b2, hs, hb1, hb2, h1, hp⟩
+  · rw [hp] at hpair
+    have := congrArg List.length hpair
+    simp at this
+  · rw [hp] at hpair
+    have hpe := List.append_cancel_left hpair
+    simp only [List.cons.injEq, Prod.mk.injEq, and_true] at hpe
+    obtain ⟨e1, e2⟩ := hpe
+    have happ' : applyPairs order [(b1, b2, r.fix)] st'.mol ch = some (m2, ch2) := by rw [e1, e2]; exact happ
+    have hmem : r ∈ fixedRules ++ morganRules := List.mem_append_right _ hr
+    have hmove := charged_rules_move_one_charge r hmem
+    have hnm := charge_rules_have_no_metal_atoms r hmem
+    unfold chargeRuleMovesOne at hmove
+    simp only [Bool.and_eq_true, beq_iff_eq, Bool.or_eq_true, Bool.not_eq_true'] at hmove
+    obtain ⟨⟨hsrc, h2c⟩, h1c⟩ := hmove
+    have nonMetal : ∀ u q, r.atoms.lookup u = some q → q.kind ≠ .metal := by
+      intro u q hq
+      have hin : (u, q) ∈ r.atoms := mem_of_lookup_eq_some _ _ _ hq
+      have := List.all_eq_true.mp hnm (u, q) hin
+      simpa using this
+    have chargeOf : ∀ u x (c : Int), mp.lookup u = some x → (r.atoms.lookup u).map (·.charge) = some c →
+        ∃ a, st.mol.atom? x = some a ∧ a.charge = c := by
+      intro u x c hx hc
+      cases hq : r.atoms.lookup u with
+      | none => simp [hq] at hc
+      | some q =>
+        obtain ⟨a, ha, hac⟩ := atomOk_pins_charge r.toPattern st.mol L u x q hq (nonMetal u q hq) (live u x hx)
+        exact ⟨a, ha, by simpa [hq, hac] using hc⟩
+    obtain ⟨as, has, has1⟩ := chargeOf _ s 1 hs hsrc
+    rcases applyPairs_one order b1 b2 r.fix st'.mol m2 ch ch2 happ' with h2 | h2
+    · -- `+1` on `mapping[2]`, a neutral atom different from the source
+      obtain ⟨at2, hat2, hat20⟩ := chargeOf 2 b2 0 hb2 h2c
+      exact move_one_charge hnd as has has1 h1 h2 (Or.inr ⟨at2, hat2, hat20⟩)
+    · -- `+1` on `mapping[1]`: the source itself (`fix = false`) or a neutral atom (`fix = true`)
+      cases hfix : r.fix with
+      | false =>
+        rw [hfix] at hs
+        simp only [Bool.false_eq_true, if_false] at hs
+        have : b1 = s := by rw [hb1] at hs; simpa using hs
+        exact move_one_charge hnd as has has1 h1 h2 (Or.inl this)
+      | true =>
+        rcases h1c with hf | h1c
+        · rw [hfix] at hf; simp at hf
+        · obtain ⟨at1, hat1, hat10⟩ := chargeOf 1 b1 0 hb1 h1c
+          exact move_one_charge hnd as has has1 h1 h2 (Or.inr ⟨at1, hat1, hat10⟩)
+
+/-- the hypotheses are satisfiable and both halves do something: rule-`fix = false` body on a three-atom stand-in takes the charge
+    off atom 1 and queues `(1, 2, false)`; with rank(1) > rank(2) the deferred `+1` lands on atom 2 and `[2, 1]` is reported -/
+example : ((chargeBody true false
+      { mol := ⟨[(1, { z := 7, charge := 1, implH := some 1 }), (2, { z := 7, implH := some 1 }), (3, { z := 7, implH := some 0 })],
+                [(1, [(3, { order := 4 }), (2, { order := 4 })]), (2, [(1, { order := 4 }), (3, { order := 4 })]),
+                 (3, [(1, { order := 4 }), (2, { order := 4 })])]⟩ }
+      [(1, 1), (2, 2), (3, 3)]).bind fun st' =>
+        (applyPairs [(1, 5), (2, 3), (3, 1)] st'.pairs st'.mol []).map fun r =>
+          (st'.pairs, netCharge st'.mol, netCharge r.1, (r.1.atom? 2).map (·.charge), r.2)) =
+    some ([(1, 2, false)], 0, 1, some 1, [2, 1]) := by rfl
 
 /-! ## `fix_resonance` (`fixResonance`: what the driver's `RES` request runs) -/
 
